@@ -494,7 +494,7 @@ def shard(pid, tier, seed, idx, n_scripts, length, registered):
 
 def run(ctx):
     pid = "C10"
-    lean.check_obligations(ctx, "Spydr/IR", ["Spydr.IR.Props.C10"], ["drv_ir"], "Spydr/IR/AuditNames.lean", META[pid]["theorems"])
+    lean.check_obligations(ctx, "Spydr/IR", ["Spydr.IR.Props.C10", "Spydr.IR.Props.C10Tbl"], ["drv_ir"], "Spydr/IR/AuditNames.lean", META[pid]["theorems"])
     ctx.rule = ("random histories over a small alphabet of colliding names/identifiers (case variants, illegal identifiers) on 2 netlists / 3 libraries / "
                 "3 definitions / ports, cables, instances: create, attach/detach, rename, identifier set/delete/pop, name deletion, .NS assignment, policy "
                 "switch; after every step: outcome + element data + tables vs the Lean model, uniqueness per scope, refusal vs an independent duplicate/legality "
